@@ -124,6 +124,31 @@ fn literal_universe(ctx: &Ctx) -> Vec<String> {
         set.insert(format!("und-Latn-US-{}-u-ca-buddhist", j));
         set.insert(format!("en-t-de-{}", j));
     }
+    // count ladder (DESIGN 0.8): the macros build their values from the parsed parts at compile time
+    // (arrays of raw integers); a fixed-size buffer or a count-dependent path in a proc macro has
+    // its boundary at some element count.  Every list position at every n in the ascending,
+    // descending and scrambled order, and with one repeat of the first element at the end.
+    {
+        use super::counts::{input_text, Spec, DIMS};
+        let n_max = if ctx.quick() { 34 } else { 72 };
+        let step = if ctx.quick() { 3 } else { 1 };
+        for dim in DIMS {
+            for n in 0..=n_max {
+                // every n for the variants (both macros parse them); every third n elsewhere in the quick tier
+                if dim != "variants" && n % step != 0 && !matches!(n, 8 | 9 | 16 | 17 | 32 | 33) {
+                    continue;
+                }
+                set.insert(input_text(dim, &Spec { n, kind: 0, a: 0, b: 0 }));
+                if n >= 2 {
+                    set.insert(input_text(dim, &Spec { n, kind: 1, a: 0, b: 0 }));
+                    set.insert(input_text(dim, &Spec { n, kind: 4, a: n - 1, b: n }));
+                }
+                if n >= 4 {
+                    set.insert(input_text(dim, &Spec { n, kind: 3, a: 0, b: 0 }));
+                }
+            }
+        }
+    }
     // single tokens (subtag macros): the full class alphabet and the valid exemplars
     for t in sigma_full(ctx.seed).into_iter().chain(super::subtags::valid_subtags()) {
         if let Ok(s) = String::from_utf8(t) {
@@ -664,7 +689,7 @@ pub fn run_c16(ctx: &Ctx) -> Report {
     }
     rep.samples = good.iter().step_by(good.len() / 4 + 1).map(|i| json!({"well_formed": format!("{}({:?})", i.mac.name(), i.lit)}))
         .chain(bad.iter().step_by(bad.len() / 4 + 1).map(|i| json!({"ill_formed": format!("{}({:?})", i.mac.name(), i.lit)}))).collect();
-    rep.rule = "E5: generated programs. Literal universe = UTF-8 token sequences over a 15-token alphabet to the stated depth, two (thorough: four) language ids x every extension shape x both -u-/-t- orders (also UPPER/'_' renderings), every language-id skeleton in three renderings, the single tokens of the class alphabet, one-edit neighbours of three skeletons. Each literal is classified by the reference recognisers per macro (locale!: must-accept / must-reject, either left out; langid!, lang!, script!, region!, variant!: exact). Well-formed: one invocation per line, bound with let, compared (== and Debug text) with run-time parsing under catch_unwind; plus langids!/langid_slice!/locales! over chunks. Ill-formed: one invocation per line (every 16th through a list macro); the set of lines reached by the compiler's error back-traces must be exactly the set of invocation lines. states = (macro, literal) invocations; distinct_nontrivial = well-formed invocations.".into();
+    rep.rule = "E5: generated programs. Literal universe = UTF-8 token sequences over a 15-token alphabet to the stated depth, two (thorough: four) language ids x every extension shape x both -u-/-t- orders (also UPPER/'_' renderings), every language-id skeleton in three renderings, the single tokens of the class alphabet, one-edit neighbours of three skeletons, the count ladder (every list position at n = 0..34 [72] elements in ascending / descending / scrambled order and with one repeat). Each literal is classified by the reference recognisers per macro (locale!: must-accept / must-reject, either left out; langid!, lang!, script!, region!, variant!: exact). Well-formed: one invocation per line, bound with let, compared (== and Debug text) with run-time parsing under catch_unwind; plus langids!/langid_slice!/locales! over chunks. Ill-formed: one invocation per line (every 16th through a list macro); the set of lines reached by the compiler's error back-traces must be exactly the set of invocation lines. states = (macro, literal) invocations; distinct_nontrivial = well-formed invocations.".into();
     rep.assumptions = vec!["reference recognisers of DESIGN §3.1".into(), "non-UTF-8 literals cannot be written and are outside".into(), "ill-formed langid!/locale! literals are an evenly spaced subset above the per-tier cap (compile time)".into()];
     rep
 }
